@@ -149,7 +149,8 @@ func c04RunOp(st *trie.SlimTrie, op c04Op, nkeys int) (res c04Res) {
 }
 
 // c04Expect is the property as stated, on the sorted reference.
-//   refused: the trie does not store complete keys and is not empty -> the scan APIs must panic.
+//
+//	refused: the trie does not store complete keys and is not empty -> the scan APIs must panic.
 func c04Expect(ref *Ref, complete bool, op c04Op) (refused bool, text string) {
 	if !complete && len(ref.Keys) > 0 {
 		return true, "PANIC"
